@@ -121,6 +121,22 @@ func generate(ld *Loaded, cs *Contracts, fc *FuncContract) (res *FuncResult) {
 		env := ex.specEnv(top, st, ex.entry)
 		cx.assume(env.evalBool(cl.Expr))
 		cx.note("assumed without proof in %s: %s", name, cl.Src)
+		if clauseHasQuant(ex, cl.Expr) {
+			cl := cl
+			ex.qhyps = append(ex.qhyps, qhyp{guard: tTrue, inst: func(sk map[string]SVal) (Term, bool) {
+				henv := ex.specEnv(nil, ex.entry, ex.entry)
+				for n, v := range ex.paramEntry {
+					henv.vars[n] = v
+				}
+				nUnsup := len(ex.cx.unsupported)
+				t := henv.evalInstance(cl.Expr, sk)
+				if len(ex.cx.unsupported) != nUnsup {
+					ex.cx.unsupported = ex.cx.unsupported[:nUnsup]
+					return Term{}, false
+				}
+				return t, true
+			}})
+		}
 	}
 	if fc.Decreases != nil {
 		env := ex.specEnv(top, st, ex.entry)
@@ -178,6 +194,17 @@ func generate(ld *Loaded, cs *Contracts, fc *FuncContract) (res *FuncResult) {
 				label = fmt.Sprintf("L%d", cl.Line)
 			}
 			ex.obligeNoAssume("post", label, nrm.st, g, fn.Pos(), cl.Props)
+			{
+				cl := cl
+				ex.assumeUniversal(nrm.st, sk, func() *SpecEnv {
+					e2 := ex.specEnv(nil, nrm.st, ex.entry)
+					for n, v := range ex.paramEntry {
+						e2.vars[n] = v
+					}
+					bindResults(e2, rvals, rnames)
+					return e2
+				}, cl.Expr)
+			}
 		}
 		if fc.HasModifies {
 			ex.frameCheck(nrm.st, "frame", fn)
